@@ -132,6 +132,40 @@ def canon(netlist, lower=True):
     return out
 
 
+# ---------------------------------------------------------------- Comparer.get_pin_key on every pin of every wire
+def real_keys(netlist):
+    """one token per pin on a wire (libraries / definitions / cables / wires / pins in order): what the real
+    Comparer.get_pin_key answers - k:<0|1 outer>:<instance name>:<port name>:<index> - or e:<exception>;
+    the same tokens are printed by the model (nv_keys of coq/theories/Cmp/Comparer.v, request K of the driver).
+    A pin outside the model (canonical value X) is e:ill on both sides."""
+    c = Comparer(netlist, netlist)
+    get = getattr(c, 'get_pin_key', None)
+    out = []
+    for l in netlist.libraries:
+        for d in l.definitions:
+            for cb in d.cables:
+                for w in cb.wires:
+                    for pin in w.pins:
+                        t = []
+                        canon_pin(pin, d, t)
+                        if t == ['X']:
+                            out.append('e:ill')
+                            continue
+                        if get is None:
+                            out.append('e:no-get_pin_key')
+                            continue
+                        try:
+                            k = get(pin)
+                        except Exception as e:  # noqa
+                            out.append('e:' + EXN.get(type(e), 'other:' + type(e).__name__))
+                            continue
+                        if not (isinstance(k, tuple) and len(k) == 4 and isinstance(k[0], bool) and isinstance(k[3], int)):
+                            out.append('e:shape:%r' % (k,))
+                            continue
+                        out.append('k:%d:%s:%s:%d' % (1 if k[0] else 0, tok_oname(k[1]), tok_oname(k[2]), k[3]))
+    return out
+
+
 # ---------------------------------------------------------------- structural relation, independent of the comparer
 # Mirror in Python of the declarative relations of coq/theories/Cmp/Equiv.v (nv_equiv_ord, nv_equiv,
 # nv_covered), computed from the real objects: siblings are matched by name (any order), the wire at
